@@ -31,16 +31,18 @@ def run(ctx):
     keys_c14.report(ctx, 'C16', res, stats, found)
     # spec/PonyOrder.tla: every sequence of creations, re-pointings and deletions over two parents and two children (the
     # references always form a forest), ended by the commit: it must succeed and store the session's view
-    res, stats, found = order_c16.run(ctx, 6 if quick else 8)
-    for known, what, rep in found:
-        if known:
-            ctx.mismatch('C16:flush-order:repointed-dependent-deleted-after-its-old-parent', what, {'order_path': rep})
-        else:
-            ctx.mismatch('C16:order:%s:%s' % ('-'.join(c[0] for c in rep['calls']), what.split(':')[0][:40]), what, {'order_path': rep})
-    ctx.coverage['states'] += res.distinct
-    ctx.coverage['transitions'] += res.generated
-    ctx.coverage['traces_validated_against_impl'] += stats['paths']
-    ctx.coverage['order_model'] = stats
+    ctx.coverage['order_model'] = []
+    for mode, level in (('refuse', 6 if quick else 8), ('cascade', 5 if quick else 7), ('unlink', 4 if quick else 6)):
+        res, stats, found = order_c16.run(ctx, level, mode)
+        for known, what, rep in found:
+            if known and mode == 'refuse':
+                ctx.mismatch('C16:flush-order:repointed-dependent-deleted-after-its-old-parent', what, {'order_path': rep})
+            else:
+                ctx.mismatch('C16:order:%s:%s:%s' % (mode, '-'.join(c[0] for c in rep['calls']), what.split(':')[0][:40]), what, {'order_path': rep})
+        ctx.coverage['states'] += res.distinct
+        ctx.coverage['transitions'] += res.generated
+        ctx.coverage['traces_validated_against_impl'] += stats['paths']
+        ctx.coverage['order_model'].append(stats)
 
 
 def replay(ctx, rep):
